@@ -41,7 +41,29 @@ SADDLE = (1.0, 0.7, 0.3)
 # at x = -2a(1 - m^2/4)/(3c) = +1.25 m away, outside the domain for every shift used)
 OBLIQUE = (1.0, 2.5, 0.3)
 
-MIN_POINTS = {"DBLR": 65, "LSH": 65}  # smallest number of data points per direction
+# Gaussian hill with elliptical contours, "ELL:<kappa>:<tilt in degrees>":
+#   exp(-(u^2/a^2 + v^2/(kappa a)^2)),  u, v = coordinates rotated by the tilt about the centre.
+# One O-point whose Hessian has a mixed derivative f_RZ of the size of f_RR, f_ZZ: the
+# classification by the sign of f_RR f_ZZ - f_RZ^2 depends on the exact weight of f_RZ
+# (f_RZ^2 / (f_RR f_ZZ) = 0.36 for kappa 2 at 45 degrees).
+ELL_A = 0.24
+
+MIN_POINTS = {"DBLR": 65, "LSH": 65}
+
+
+def ell_name(kappa, theta):
+    return "ELL:%g:%g" % (kappa, theta)
+
+
+def _ell_coef(name):
+    _, k, th = name.split(":")
+    k, th = float(k), np.radians(float(th))
+    a, b = ELL_A, float(k) * ELL_A
+    cs, sn = np.cos(th), np.sin(th)
+    A = cs * cs / a**2 + sn * sn / b**2
+    B = cs * sn * (1 / a**2 - 1 / b**2)
+    Cc = sn * sn / a**2 + cs * cs / b**2
+    return A, B, Cc  # smallest number of data points per direction
 
 
 class Fam:
@@ -50,10 +72,20 @@ class Fam:
         self.sigma = float(sigma)
         self.c = (C[0] + shift[0], C[1] + shift[1])
         self.terms = FAMILIES.get(name)
+        self.ell = _ell_coef(name) if name.startswith("ELL:") else None
+        # narrowest Gaussian width (None for the polynomials)
+        if self.terms:
+            self.wmin = min(min(t[3], t[4]) for t in self.terms)
+        else:
+            self.wmin = ELL_A if self.ell else None
 
     def f(self, R, Z):
         R = np.asarray(R, dtype=float)
         Z = np.asarray(Z, dtype=float)
+        if self.ell:
+            A, B, Cc = self.ell
+            x, y = R - self.c[0], Z - self.c[1]
+            return self.sigma * np.exp(-(A * x * x + 2 * B * x * y + Cc * y * y))
         if self.name == "X1":
             a, b, c = SADDLE
             x, y = R - self.c[0], Z - self.c[1]
@@ -71,6 +103,12 @@ class Fam:
         """f_R, f_Z, f_RR, f_ZZ, f_RZ"""
         R = np.asarray(R, dtype=float)
         Z = np.asarray(Z, dtype=float)
+        if self.ell:
+            A, B, Cc = self.ell
+            x, y = R - self.c[0], Z - self.c[1]
+            g = self.sigma * np.exp(-(A * x * x + 2 * B * x * y + Cc * y * y))
+            qx, qy = 2 * A * x + 2 * B * y, 2 * B * x + 2 * Cc * y
+            return -qx * g, -qy * g, (qx * qx - 2 * A) * g, (qy * qy - 2 * Cc) * g, (qx * qy - 2 * B) * g
         if self.name == "X1":
             a, b, c = SADDLE
             x, y = R - self.c[0], Z - self.c[1]
